@@ -38,7 +38,14 @@ impl Engine for SerEngine {
             1 => {
                 let ws = rng.chance(1, 2);
                 let size = rng.range(1, 6) as usize;
-                let m = gen_program(rng, &GenOpts { size, with_submodules: ws });
+                let mut m = gen_program(rng, &GenOpts { size, with_submodules: ws });
+                if rng.chance(1, 3) {
+                    // functions without cards: their epilogue is traced at the empty card index
+                    m.functions.push(("emptyfn".into(), cao_lang::compiler::Function::default()));
+                    if let Some((_, sub)) = m.submodules.first_mut() {
+                        sub.functions.push(("emptysub".into(), cao_lang::compiler::Function { arguments: vec!["a".into()], cards: vec![] }));
+                    }
+                }
                 vec![format!("ser program {}", module_tok(&m))]
             }
             _ => {
